@@ -153,8 +153,30 @@ def ascending_guard(ctx, W, fn, push_bb, tag_term, list_term, key):
     tag_term = values.strip_payload(tag_term)
     allowed = set()
     forbidden = []
+    def some_and_le(term):
+        """`list.last().is_some_and(|last| tag <= *last)`: True when `term` is that call for this tag and this list"""
+        if not (is_call(term) and callee_name(term[1]) == "is_some_and" and len(term[2]) == 2):
+            return False
+        opt, clo = values.strip_payload(W.expand(term[2][0])), term[2][1]
+        if not (is_call(opt) and callee_name(opt[1]) == "last" and W.expand(opt[2][0]) == list_term):
+            return False
+        if not (isinstance(clo, tuple) and clo and clo[0] == "closure" and clo[1] in ctx.prog.fns):
+            return False
+        K = ctx.prog.fns[clo[1]]
+        kr = W.ev(K.path).ret()
+        caps = {("field", ("param", K.path, 1), str(i)): values.strip_payload(W.expand(u)) for i, u in enumerate(clo[2])}
+        for rel in flow.relational(("eq", kr, True)):
+            a, b = values.strip_payload(rel[1]), values.strip_payload(rel[2])
+            if rel[0] == "Le" and caps.get(a) == tag_term and b == ("param", K.path, 2):
+                return True
+        return False
+
     for (src, dst), facts in ef.items():
         for f in facts:
+            if f[0] in ("eq", "ne") and isinstance(f[2], bool) and some_and_le(f[1]):
+                holds = f[2] if f[0] == "eq" else not f[2]
+                (forbidden.append((src, dst)) if holds else allowed.add((src, dst)))
+                continue
             for rel in flow.relational(f):
                 # last() is None
                 if isinstance(rel[1], tuple) and rel[1][0] == "discr" and is_call(rel[1][1]) and callee_name(rel[1][1][1]) == "last" \
@@ -367,7 +389,9 @@ def run(ctx):
     rex = [bb for bb, t in mt.calls() if callee_name(t["fn"].get("path", "")) == "read_exact"]
     for bb, a in dec_push:
         rels = flow.rel_facts_at(MIN, bb)
-        okr = any(r[0] == "Pred" and r[1] == "is_ok" and is_call(r[2]) and callee_name(r[2][1]) == "read_exact" for r in rels)
+        from lib import fact_is_present
+        okr = any(r[0] == "Pred" and r[1] == "is_ok" and is_call(r[2]) and callee_name(r[2][1]) == "read_exact" for r in rels) or \
+            fact_is_present(rels, lambda x: is_call(x) and callee_name(x[1]) == "read_exact", variant_index=0)
         ctx.check("decoder-guards", "multi_tag_message/tag-bytes-read-completely", okr and len(rex) == 1, "a tag is decoded only after read_exact succeeded",
                   "tag bytes are used although read_exact may have failed", mt.loc(bb))
     # every rejection is one the reference decoder makes too (3b)
@@ -445,6 +469,12 @@ def run(ctx):
                     src = values.strip_payload(e.call_args(bl.idx)[0])
                     while isinstance(src, tuple) and src[0] in ("vfield", "field"):
                         src = src[1]
+                    for _ in range(3):
+                        # `read(..).map_err(|_| E)?`: the error still stems from the inner call
+                        if is_call(src) and callee_name(src[1]) in ("map_err", "or_else") and src[2]:
+                            src = values.strip_payload(src[2][0])
+                            while isinstance(src, tuple) and src[0] in ("vfield", "field"):
+                                src = src[1]
                     nm = callee_name(src[1]) if is_call(src) else "?"
                     synths = []
                     if nm in ("ok_or", "ok_or_else") and is_call(src) and src[2]:
@@ -500,6 +530,12 @@ def run(ctx):
                             guard.extend(flow.relational(f))
                     idiom = None
                     unknown = []
+                    if p_ is not None:
+                        for f in ef.get((p_, arm), ()):
+                            # `tags.last().is_some_and(|last| tag <= *last)` taken: the tag-order rejection (guard checked by rule 2)
+                            if f[0] in ("eq", "ne") and isinstance(f[2], bool) and is_call(f[1]) and callee_name(f[1][1]) == "is_some_and" and \
+                                    values.contains(f[1], lambda x: is_call(x) and callee_name(x[1]) == "last") and (f[2] if f[0] == "eq" else not f[2]):
+                                idiom = "tag not above the previous tag (guard checked by rule 2)"
                     for r in (guard or rels):
                         if r[0] == "NotPred" and r[1] == "is_ok" and is_call(r[2]) and callee_name(r[2][1]) in SHORT_READ:
                             idiom = "short read"
